@@ -300,9 +300,10 @@ func (w *blobWriter) Write(buf []byte) (int, error) {
 			return 0, err
 		}
 	} else {
-		if w.chunk == nil {
-			w.chunk = make([]byte, 0, w.chunkSize)
-		}
+		// Note: the chunk is not preallocated here because, for a
+		// resumed upload, chunkSize might come from the server
+		// (OCI-Chunk-Min-Length), which could make us panic or
+		// exhaust memory.
 		w.chunk = append(w.chunk, buf...)
 	}
 	w.size += int64(len(buf))
